@@ -375,6 +375,9 @@ func (a *hostileActor) sendItems(n int) bool {
 	return a.next < len(a.plan.Items)
 }
 
+// quickTier is set by the plan generators (a plan is generated for one tier at a time within a process).
+var quickTier bool
+
 func genWireItems(r *sim.Rng, n int, asPublisher bool) []WireItem {
 	var items []WireItem
 	types := []int{1, 2, 3, 4, 5, 6, 8, 9, 15, 16, 17, 18, 19, 20, 22, 0, 7, 21, 255}
@@ -402,6 +405,9 @@ func genWireItems(r *sim.Rng, n int, asPublisher bool) []WireItem {
 			items = append(items, WireItem{Kind: "msg", Type: []int{18, 15, 18}[r.Intn(3)], Csid: 5, Msid: 1, Gen: []string{"meta_bad", "meta_nest", "rand", "amf_bigcount", "amf_shortlong"}[r.Intn(5)], N: []int{0, 1, 3, 50, 3000}[r.Intn(5)], Seed: seed})
 		case 6: // deep nesting (up to the 16 MiB message limit occasionally)
 			depth := []int{100, 5000, 100000, 1000000, 3300000}[r.Intn(5)]
+			if quickTier && depth > 400000 {
+				depth = 400000 // the 16 MiB messages take seconds each: thorough tier only
+			}
 			gen := []string{"amf_nest_obj", "amf_nest_arr", "amf_nest_ecma", "meta_nest"}[r.Intn(4)]
 			if gen == "amf_nest_ecma" && depth > 2000000 {
 				depth = 2000000
@@ -443,6 +449,7 @@ func genWireItems(r *sim.Rng, n int, asPublisher bool) []WireItem {
 
 func genC04Plan(r *sim.Rng, tier string) HostilePlan {
 	var pl HostilePlan
+	quickTier = tier != "thorough"
 	pl.Conf = LalConf{ApiEnable: true, FlvEnable: true, TsEnable: r.Bool(0.5), RtmpGop: r.Intn(2), NoHook: r.Bool(0.5)}
 	pl.Sched = GenSched(r.Fork("sched"), tier == "thorough")
 	pl.Sched.MaxSteps = 200000
